@@ -741,6 +741,38 @@ pub fn alpha_normalise(text: &str) -> String {
     out
 }
 
+
+/// A digest of the properties of a module that the printer could drop *consistently* (then print -> parse -> print is a
+/// fixpoint although information was lost): flags of functions, mutability of arguments and locals, types and
+/// initializers of locals, shape of the CFG. Computed with sway-ir's accessors, not from printed text.
+pub fn structural_digest(ir: &Context) -> String {
+    let mut out = String::new();
+    for m in ir.module_iter() {
+        for f in m.function_iter(ir) {
+            out.push_str(&format!(
+                "fn {} entry={} orig={} fallback={} selector={:?} ret={}\n",
+                f.get_name(ir),
+                f.is_entry(ir),
+                f.is_original_entry(ir),
+                f.is_fallback(ir),
+                f.get_selector(ir),
+                f.get_return_type(ir).as_string(ir)
+            ));
+            for a in f.args_iter(ir) {
+                out.push_str(&format!("  arg {} mut={} ty={}\n", a.name, matches!(a.mutability, sway_ir::IrMutability::Mutable), a.value.get_type(ir).map(|t| t.as_string(ir)).unwrap_or_default()));
+            }
+            let mut locals: Vec<String> = f.locals_iter(ir).map(|(n, v)| format!("  local {} mut={} ty={} init={}\n", n, v.is_mutable(ir), v.get_inner_type(ir).as_string(ir), v.get_initializer(ir).is_some())).collect();
+            locals.sort();
+            out.extend(locals);
+            for b in f.block_iter(ir) {
+                let args: Vec<String> = b.arg_iter(ir).map(|a| a.get_type(ir).map(|t| t.as_string(ir)).unwrap_or_default()).collect();
+                out.push_str(&format!("  block {} args=[{}] n={}\n", b.get_label(ir), args.join(","), b.num_instructions(ir)));
+            }
+        }
+    }
+    out
+}
+
 fn interesting_ir(text: &str) -> bool {
     text.contains("u256 0x") || text.contains("b256 0x") || text.contains("string<") || text.contains("asm(") || text.contains("config ") || text.contains("global ") || text.contains("{ ") && text.contains("const {") || text.contains("( u64") || text.contains("[u") || text.contains("!")
 }
@@ -866,13 +898,14 @@ fn c05_eval(case: &C05Case, rep: &Report, corpus: &[(String, String)]) -> Result
                         return (None, false);
                     }
                     let text = sway_ir::printer::to_string(ir);
+                    let digest = structural_digest(ir);
                     if !*behave {
-                        return (Some(text), false);
+                        return (Some((text, digest)), false);
                     }
                     let r2 = run_passes(ir, &list[k..], false);
-                    (Some(text), r2.is_ok())
+                    (Some((text, digest)), r2.is_ok())
                 });
-                let (text, orig_bc) = match r {
+                let ((text, digest), orig_bc) = match r {
                     Ok((Some(t), bc)) => (t, bc),
                     _ => {
                         rep.class("pipeline-failed-before-stage(C04/C17 domain)");
@@ -887,6 +920,15 @@ fn c05_eval(case: &C05Case, rep: &Report, corpus: &[(String, String)]) -> Result
                 }
                 let mk = |sig: String, d: String| -> Fail { (sig, d.clone(), json!({"tape": tape, "no_trap": no_trap, "o1": o1, "stage": k, "passes_before": list[..k], "src": src, "ir_text": truncate(&text, 20000), "detail": d})) };
                 let p1 = roundtrip_text(&fc.engines, fc.exp, &text, rep).map_err(|(s, d)| mk(s, d))?;
+                // information the printer may drop consistently: compare the re-parsed module with the original structurally
+                if let Ok(c) = sway_ir::parser::parse(&text, fc.engines.se(), fc.exp, Default::default()) {
+                    let d2 = structural_digest(&c);
+                    // (the recorded finding: entry-block parameter flags are per block argument, not part of this digest)
+                    if d2 != digest {
+                        let (l0, l1) = first_diff(&digest, &d2);
+                        return Err(mk("reparsed-module-differs-structurally".into(), format!("original: {l0}\n  re-parsed: {l1}")));
+                    }
+                }
                 if let Some(Ok(orig)) = orig_bc {
                     // behaviour: continue the same pipeline from the re-parsed text
                     let mut c = match sway_ir::parser::parse(&p1, fc.engines.se(), fc.exp, Default::default()) {
